@@ -90,8 +90,11 @@ def gen_session(rng, n):
             ops.append("o 0 unfix")
         elif r < 0.82:
             ops.append("o %x addr %x" % (mask, rng.choice((0x1234, 0x5678, 0x9abc, rng.randrange(1, 1 << 40)))))
-        elif r < 0.90:
+        elif r < 0.86:
             ops.append("o %x emit %d %d" % (mask & 1, rng.randrange(0, nsec + 1), rng.choice((1, 4, 100, 5000, 9000, 20000))))
+        elif r < 0.90:
+            ops.append(rng.choice(("o %x inst %d %d" % (mask & 1, rng.randrange(0, nsec + 1), rng.randrange(0, 4)),
+                                   "o %x jmpf %d" % (mask & 3, rng.randrange(0, nsec + 1)))))
         elif r < 0.95:
             ops.append(rng.choice(("o %x vapp %d" % (mask & 1, rng.randrange(0, 1000)), "o %x vres %d" % (mask & 1, rng.choice((1, 3, 10, 100))))))
         else:
@@ -109,6 +112,48 @@ def gen_retry_session(rng, n):
             ops.append("o %x %s" % (1 << bit, " ".join(w[2:])))
         ops.append("o 0 " + " ".join(w[2:]))
     return ops
+
+
+def asm_program(rng, big):
+    """the shape of the assembler workload as operation bodies: sections, labels, named labels, instructions, forward jumps,
+    data, label-delta expressions, absolute targets (relocation + address table), buffers that have to grow"""
+    P = ["mklabels", "sec 2e64617461 16 0", "sec 2e726f64617461 8 1"]
+    for i in range(4 if not big else 10):
+        P.append("label")
+    P += ["named 656e7472795f706f696e74 2 4294967295", "named 6c6f63 1 2", "named 616e6f6e 0 4294967295"]
+    for i in range(3 if not big else 12):
+        P.append("named %02x%02x 2 4294967295" % (103, 48 + i))
+    for i in range(10 if not big else 40):
+        P.append("inst 0 %d" % rng.randrange(0, 4))
+        if i % 3 == 0:
+            P.append("jmpf 0")
+    P += ["reloc 2", "addr 123456789abc", "reloc 2", "addr 7fff12345678", "reloc 2", "addr 123456789abc"]
+    P += ["emit 1 12", "reloc 1", "fixup", "emit 1 8", "expr", "emit 2 8", "expr", "jmpf 1"]
+    if big:
+        P += ["emit 1 5000"] * 4 + ["emit 0 9000", "inst 0 1", "emit 2 20000", "jmpf 2"]
+    P += ["unfix", "jmpf 0", "inst 0 2"]
+    return P
+
+
+def program_sweep(h, P, rng, limit):
+    """every allocation request of the program fails once (the failed operation is then repeated with memory available): the
+    sessions for the model correspondence; returns (ops, expected final view)"""
+    clean = ["o reset"] + ["o 0 " + b for b in P]
+    impl, rc, err = vlib.run_lines([str(h)], clean)
+    if rc != 0 or len(impl) != len(clean):
+        return clean, None
+    ns = []
+    for a in impl:
+        m = re.search(r" n=(\d+)", a)
+        ns.append(int(m.group(1)) if m else 0)
+    points = [(i, j) for i in range(1, len(clean)) for j in range(ns[i])]
+    if len(points) > limit:
+        points = sorted(rng.sample(points, limit))
+    ops = list(clean)
+    for (i, j) in points:
+        body = P[i - 1]
+        ops += ["o reset"] + ["o 0 " + b for b in P[:i - 1]] + ["o %x %s" % (1 << j, body), "o 0 " + body] + ["o 0 " + b for b in P[i:]]
+    return ops, impl[-1].split(" | ")[1] if " | " in impl[-1] else None
 
 
 def split_sessions(ops):
@@ -321,6 +366,22 @@ def run(res):
     for i in range(nsess):
         ops += gen_session(rng, rng.choice((10, 25, 45))) if i % 3 else gen_retry_session(rng, rng.choice((6, 12)))
     ops_ok = ops_stage(res, h, ops, dist)
+    # the assembler workload's shape at the level of the model: every request of the program fails once, the failed call is
+    # repeated; model = real code on every line, and every session must end in the failure-free state (runRetry_eq_specRun)
+    for big in ((False,) if res.tier == "quick" else (False, True)):
+        P = asm_program(rng, big)
+        pops, final = program_sweep(h, P, rng, 60 if res.tier == "quick" else 400)
+        ops_stage(res, h, pops, dist)
+        impl2, rc2, _ = vlib.run_lines([str(h)], pops)
+        ends = [i for i, o in enumerate(pops) if o == "o reset"][1:] + [len(pops)]
+        bad_end = [e for e in ends if final is None or e - 1 >= len(impl2) or (impl2[e - 1].split(" | ") + ["", ""])[1] != final]
+        dist["program_sweep_sessions"] = dist.get("program_sweep_sessions", 0) + len(ends)
+        if bad_end and not any(v["found_input"] for v in res.violations):
+            e = bad_end[0]
+            st = max(i for i in range(e) if pops[i] == "o reset")
+            res.violation("after a failed call was repeated the program does not end in the failure-free state", {"ops": pops[st:e]},
+                          found_input=True, key="ops:program")
+        ops += pops
     if not ops or sum(dist["ops"].values()) == 0:
         res.violation("empty run: no operation line was executed", {"ops": ops[:5]}, found_input=False, key="empty")
     # ---- PART 1
